@@ -1,13 +1,503 @@
-//! C09 — not implemented yet.
+//! C09 — pattern encoder output equals the pattern's meaning. Patterns are generated from the AST of
+//! the documented grammar; the case carries the AST (prefix token list) and the pattern string the
+//! harness printed from it (the Lean driver prints the AST with its own `showPats` and refuses the
+//! case when the two strings differ). Execution and observation are those of C11 (`c11::run_case`).
+//!
+//! case line (after the id):  ast-tokens  pattern  level message target module? file? line? thread? mdc
+//! tokens, joined by `,`:
+//!   L<hex>:<p|d|b>                      literal character, plain / doubled / backslash
+//!   s~ | s<fill hex|->:<-|l|r>:<min digits|->:<max digits|->    format spec (follows every formatter token)
+//!   F<kind>:<long>  spec                formatter without arguments
+//!   D<long>:<0|1|2>:<utc>  spec  [ lits ]        date: no args / format / format + zone
+//!   X<long>:<hasdefault>  spec  [ key ]  [ default ]?
+//!   G<a|h|d|r>:<long>  spec  ( pats )   unnamed / highlight / debug / release group
+use crate::c11::{self, Case};
+use crate::proto::*;
 use crate::rng::Rng;
 
-pub fn gen(_rng: &mut Rng, _n: usize, _thorough: bool, _emit: &mut dyn FnMut(String)) {}
-
-pub fn exec(_fields: &[&str]) -> String {
-    "unimplemented".to_owned()
+#[derive(Clone, Copy, PartialEq)]
+pub enum Esc {
+    P,
+    D,
+    B,
 }
 
-/// child-process entry point (`verif-harness child c09 …`), for checks that need process-global state
-pub fn child(_args: &[String]) -> i32 {
-    2
+#[derive(Clone)]
+pub struct Lit {
+    c: char,
+    esc: Esc,
+}
+
+#[derive(Clone, Default)]
+pub struct Spec {
+    fill: Option<char>,
+    align: Option<bool>,
+    min: Option<String>,
+    max: Option<String>,
+}
+
+#[derive(Clone)]
+pub enum Pat {
+    Lit(Lit),
+    Leaf(usize, bool, Option<Spec>),
+    Date(bool, Option<(Vec<Lit>, Option<bool>)>, Option<Spec>),
+    Mdc(bool, Vec<Lit>, Option<Vec<Lit>>, Option<Spec>),
+    Group(char, bool, Vec<Pat>, Option<Spec>),
+}
+
+const LEAVES: &[(&str, &str, &str)] = &[
+    ("level", "l", "level"),
+    ("message", "m", "message"),
+    ("module", "M", "module"),
+    ("file", "f", "file"),
+    ("line", "L", "line"),
+    ("thread", "T", "thread"),
+    ("threadId", "I", "thread_id"),
+    ("pid", "P", "pid"),
+    ("tid", "i", "tid"),
+    ("target", "t", "target"),
+    ("newline", "n", "n"),
+];
+const THREAD_ID: usize = 6;
+
+fn is_special(c: char) -> bool {
+    "{}()\\".contains(c)
+}
+
+fn show_lit(l: &Lit, out: &mut String) {
+    match l.esc {
+        Esc::P => out.push(l.c),
+        Esc::D => {
+            out.push(l.c);
+            out.push(l.c)
+        }
+        Esc::B => {
+            out.push('\\');
+            out.push(l.c)
+        }
+    }
+}
+
+fn show_spec(s: &Option<Spec>, out: &mut String) {
+    if let Some(s) = s {
+        out.push(':');
+        if let Some(f) = s.fill {
+            out.push(f);
+        }
+        match s.align {
+            Some(true) => out.push('>'),
+            Some(false) => out.push('<'),
+            None => {}
+        }
+        if let Some(m) = &s.min {
+            out.push_str(m);
+        }
+        if let Some(m) = &s.max {
+            out.push('.');
+            out.push_str(m);
+        }
+    }
+}
+
+fn show_lits(ls: &[Lit], out: &mut String) {
+    out.push('(');
+    for l in ls {
+        show_lit(l, out);
+    }
+    out.push(')');
+}
+
+pub fn show(ps: &[Pat], out: &mut String) {
+    for p in ps {
+        match p {
+            Pat::Lit(l) => show_lit(l, out),
+            Pat::Leaf(k, long, spec) => {
+                out.push('{');
+                out.push_str(if *long { LEAVES[*k].2 } else { LEAVES[*k].1 });
+                show_spec(spec, out);
+                out.push('}');
+            }
+            Pat::Date(long, args, spec) => {
+                out.push('{');
+                out.push_str(if *long { "date" } else { "d" });
+                if let Some((f, z)) = args {
+                    show_lits(f, out);
+                    if let Some(z) = z {
+                        out.push_str(if *z { "(utc)" } else { "(local)" });
+                    }
+                }
+                show_spec(spec, out);
+                out.push('}');
+            }
+            Pat::Mdc(long, key, dflt, spec) => {
+                out.push('{');
+                out.push_str(if *long { "mdc" } else { "X" });
+                show_lits(key, out);
+                if let Some(d) = dflt {
+                    show_lits(d, out);
+                }
+                show_spec(spec, out);
+                out.push('}');
+            }
+            Pat::Group(k, long, body, spec) => {
+                out.push('{');
+                out.push_str(match (k, long) {
+                    ('a', _) => "",
+                    ('h', false) => "h",
+                    ('h', true) => "highlight",
+                    ('d', false) => "D",
+                    ('d', true) => "debug",
+                    ('r', false) => "R",
+                    (_, _) => "release",
+                });
+                out.push('(');
+                show(body, out);
+                out.push(')');
+                show_spec(spec, out);
+                out.push('}');
+            }
+        }
+    }
+}
+
+fn tok_lit(l: &Lit) -> String {
+    format!("L{:x}:{}", l.c as u32, match l.esc {
+        Esc::P => 'p',
+        Esc::D => 'd',
+        Esc::B => 'b',
+    })
+}
+
+fn tok_spec(s: &Option<Spec>) -> String {
+    match s {
+        None => "s~".to_owned(),
+        Some(s) => format!(
+            "s{}:{}:{}:{}",
+            enc_opt(s.fill, |c| format!("{:x}", c as u32)),
+            match s.align {
+                None => "-",
+                Some(false) => "l",
+                Some(true) => "r",
+            },
+            s.min.clone().unwrap_or_else(|| "-".to_owned()),
+            s.max.clone().unwrap_or_else(|| "-".to_owned())
+        ),
+    }
+}
+
+fn tok_lits(ls: &[Lit], out: &mut Vec<String>) {
+    out.push("[".to_owned());
+    for l in ls {
+        out.push(tok_lit(l));
+    }
+    out.push("]".to_owned());
+}
+
+pub fn tokens(ps: &[Pat], out: &mut Vec<String>) {
+    for p in ps {
+        match p {
+            Pat::Lit(l) => out.push(tok_lit(l)),
+            Pat::Leaf(k, long, spec) => {
+                out.push(format!("F{}:{}", LEAVES[*k].0, enc_bool(*long)));
+                out.push(tok_spec(spec));
+            }
+            Pat::Date(long, args, spec) => {
+                let (mode, utc) = match args {
+                    None => (0, false),
+                    Some((_, None)) => (1, false),
+                    Some((_, Some(z))) => (2, *z),
+                };
+                out.push(format!("D{}:{}:{}", enc_bool(*long), mode, enc_bool(utc)));
+                out.push(tok_spec(spec));
+                if let Some((f, _)) = args {
+                    tok_lits(f, out);
+                }
+            }
+            Pat::Mdc(long, key, dflt, spec) => {
+                out.push(format!("X{}:{}", enc_bool(*long), enc_bool(dflt.is_some())));
+                out.push(tok_spec(spec));
+                tok_lits(key, out);
+                if let Some(d) = dflt {
+                    tok_lits(d, out);
+                }
+            }
+            Pat::Group(k, long, body, spec) => {
+                out.push(format!("G{}:{}", k, enc_bool(*long)));
+                out.push(tok_spec(spec));
+                out.push("(".to_owned());
+                tokens(body, out);
+                out.push(")".to_owned());
+            }
+        }
+    }
+}
+
+// ------------------------------------------------------------------------------------------------
+// generator
+// ------------------------------------------------------------------------------------------------
+const PLAIN: &[char] = &[
+    'a', 'b', 'Z', 'm', 'd', ' ', ' ', '-', ':', '.', '<', '>', '9', '0', '%', '_', '~', '\t', '\u{e9}', '\u{4e2d}',
+    '\u{1f600}', '\u{663}', '\u{301}', '\u{a0}', '\u{ff5b}',
+];
+const SPECIALS: &[char] = &['{', '}', '(', ')', '\\'];
+const FILLS: &[char] = &[' ', '*', '0', '9', '}', '{', '(', ')', '\\', '<', '>', ':', '.', '\u{e9}', '\u{4e2d}', '\u{1f600}'];
+const DATE_FMTS: &[&str] = &["%Y-%m-%d", "%H:%M", "%Y", "%%", "", "at %e %b", "%Y-%m-%dT%H:%M:%S%z", "%s", "%A", "wk %U"];
+const KEYS: &[&str] = &["k", "user_id", "cl\u{e9}", "nokey", "a b", "9", ":"];
+
+fn lit_of(c: char, rng: &mut Rng, in_arg: bool) -> Lit {
+    if is_special(c) {
+        let esc = if in_arg && c == ')' {
+            Esc::B
+        } else if rng.chance(1, 2) {
+            Esc::D
+        } else {
+            Esc::B
+        };
+        Lit { c, esc }
+    } else {
+        Lit { c, esc: Esc::P }
+    }
+}
+
+fn plain_lits(s: &str) -> Vec<Lit> {
+    s.chars().map(|c| Lit { c, esc: Esc::P }).collect()
+}
+
+fn gen_text_lits(rng: &mut Rng, in_arg: bool, s: &str) -> Vec<Lit> {
+    // the text of `s`, with specials sprinkled in
+    // (never right after a `%`: that would make a different — possibly invalid — strftime directive)
+    let mut v: Vec<Lit> = vec![];
+    let mut pct = false; // an unfinished `%` directive
+    for c in s.chars() {
+        if !pct && rng.chance(1, 6) {
+            v.push(lit_of(*rng.pick(SPECIALS), rng, in_arg));
+        }
+        v.push(lit_of(c, rng, in_arg));
+        pct = c == '%' && !pct;
+    }
+    if !pct && rng.chance(1, 4) {
+        v.push(lit_of(*rng.pick(SPECIALS), rng, in_arg));
+    }
+    v
+}
+
+fn gen_spec(rng: &mut Rng) -> Option<Spec> {
+    if rng.chance(1, 2) {
+        return None;
+    }
+    loop {
+        let align = if rng.chance(1, 2) { Some(rng.chance(1, 2)) } else { None };
+        let fill = if align.is_some() && rng.chance(1, 2) { Some(*rng.pick(FILLS)) } else { None };
+        let num = |rng: &mut Rng| -> u32 { *rng.pick(&[0u32, 1, 2, 3, 4, 5, 7, 10, 12, 20, 33]) };
+        let mut min = if rng.chance(2, 3) { Some(num(rng)) } else { None };
+        let mut max = if rng.chance(1, 2) { Some(num(rng)) } else { None };
+        if let (Some(a), Some(b)) = (min, max) {
+            if a > b {
+                min = Some(b);
+                max = Some(a);
+            }
+        }
+        if align.is_none() && min.is_none() && max.is_none() {
+            continue;
+        }
+        let digits = |rng: &mut Rng, n: u32| -> String {
+            if rng.chance(1, 8) {
+                format!("0{}", n)
+            } else {
+                n.to_string()
+            }
+        };
+        return Some(Spec { fill, align, min: min.map(|n| digits(rng, n)), max: max.map(|n| digits(rng, n)) });
+    }
+}
+
+fn gen_pat(rng: &mut Rng, depth: u32, in_arg: bool) -> Pat {
+    match rng.below(20) {
+        0..=4 => Pat::Lit(lit_of(*rng.pick(PLAIN), rng, in_arg)),
+        5 | 6 => Pat::Lit(lit_of(*rng.pick(SPECIALS), rng, in_arg)),
+        7..=12 => {
+            let k = rng.below(LEAVES.len() as u64) as usize;
+            let long = rng.chance(1, 2) && k != THREAD_ID;
+            Pat::Leaf(k, long, gen_spec(rng))
+        }
+        13 | 14 => {
+            let f: &str = *rng.pick(DATE_FMTS);
+            let args = match rng.below(4) {
+                0 => None,
+                1 => Some((gen_text_lits(rng, true, f), None)),
+                _ => Some((gen_text_lits(rng, true, f), Some(rng.chance(1, 2)))),
+            };
+            Pat::Date(rng.chance(1, 2), args, gen_spec(rng))
+        }
+        15 | 16 => {
+            let key = plain_lits(*rng.pick(KEYS));
+            let d: &str = *rng.pick(&["none", "d", "n/a", "\u{4e2d}", "- -"]);
+            let dflt = if rng.chance(1, 2) { Some(plain_lits(d)) } else { None };
+            Pat::Mdc(rng.chance(1, 2), key, dflt, gen_spec(rng))
+        }
+        _ => {
+            let k = *rng.pick(&['a', 'a', 'h', 'h', 'd', 'r']);
+            let body = if depth == 0 { vec![Pat::Lit(Lit { c: 'x', esc: Esc::P })] } else { gen_pats(rng, depth - 1, true) };
+            Pat::Group(k, rng.chance(1, 2), body, gen_spec(rng))
+        }
+    }
+}
+
+fn gen_pats(rng: &mut Rng, depth: u32, in_arg: bool) -> Vec<Pat> {
+    let n = rng.range(0, 5);
+    (0..n).map(|_| gen_pat(rng, depth, in_arg)).collect()
+}
+
+pub fn case_line(ps: &[Pat], rec: &Case) -> String {
+    let mut pattern = String::new();
+    show(ps, &mut pattern);
+    let mut toks = vec![];
+    tokens(ps, &mut toks);
+    let mut rec = rec.clone();
+    rec.pattern = pattern;
+    format!("{}\t{}", enc_list(",", &toks), rec.line())
+}
+
+fn lit(c: char, esc: Esc) -> Pat {
+    Pat::Lit(Lit { c, esc })
+}
+
+fn leaf(name: &str) -> Pat {
+    for (i, l) in LEAVES.iter().enumerate() {
+        if l.1 == name {
+            return Pat::Leaf(i, false, None);
+        }
+        if l.2 == name {
+            return Pat::Leaf(i, true, None);
+        }
+    }
+    unreachable!()
+}
+
+fn spec(fill: Option<char>, align: Option<bool>, min: Option<&str>, max: Option<&str>) -> Option<Spec> {
+    Some(Spec { fill, align, min: min.map(|s| s.to_owned()), max: max.map(|s| s.to_owned()) })
+}
+
+pub fn gen(rng: &mut Rng, n: usize, thorough: bool, emit: &mut dyn FnMut(String)) {
+    let base = Case::simple("");
+    let mut full = Case::simple("");
+    full.file = Some("src/m\u{e9}.rs".into());
+    full.thread = Some("w\u{f6}rker".into());
+    full.mdc = vec![("k".into(), "v\u{4e2d}".into()), ("user_id".into(), "42".into())];
+    let mut bare = Case::simple("");
+    bare.module = None;
+    bare.file = None;
+    bare.line = None;
+    // 1. every formatter and alias, bare and under a few specs, on three records and every level
+    let specs = [
+        None,
+        spec(None, None, Some("8"), None),
+        spec(None, Some(true), Some("8"), None),
+        spec(Some('*'), Some(false), Some("6"), Some("6")),
+        spec(None, None, None, Some("2")),
+        spec(Some('}'), Some(true), Some("5"), Some("9")),
+        spec(Some('\u{1f600}'), Some(true), Some("04"), None),
+    ];
+    for (k, _) in LEAVES.iter().enumerate() {
+        for long in [false, true] {
+            for sp in specs.iter() {
+                for rec in [&base, &full, &bare] {
+                    let p = vec![lit('[', Esc::P), Pat::Leaf(k, long, sp.clone()), lit(']', Esc::P)];
+                    emit(case_line(&p, rec));
+                }
+            }
+        }
+    }
+    for level in 1..=5u8 {
+        let mut r = full.clone();
+        r.level = level;
+        for long in [false, true] {
+            for k in ['h', 'a', 'd', 'r'] {
+                let body = vec![leaf("l"), lit(' ', Esc::P), leaf("m")];
+                for sp in specs.iter() {
+                    emit(case_line(&[lit('<', Esc::P), Pat::Group(k, long, body.clone(), sp.clone()), lit('>', Esc::P)], &r));
+                }
+            }
+        }
+    }
+    // 2. every special character in both escape styles: top level, inside an argument, adjacent
+    //    to formatters and to each other
+    for &c in SPECIALS {
+        for esc in [Esc::D, Esc::B] {
+            let l = lit(c, esc);
+            emit(case_line(&[l.clone()], &base));
+            emit(case_line(&[leaf("m"), l.clone(), leaf("l")], &base));
+            emit(case_line(&[l.clone(), leaf("m"), l.clone(), l.clone()], &base));
+            emit(case_line(&[lit('a', Esc::P), l.clone(), lit('b', Esc::P)], &base));
+            for &c2 in SPECIALS {
+                for esc2 in [Esc::D, Esc::B] {
+                    emit(case_line(&[l.clone(), lit(c2, esc2)], &base));
+                    emit(case_line(&[Pat::Group('a', false, vec![l.clone(), lit(c2, esc2), leaf("m")], None)], &base));
+                }
+            }
+            // inside an argument (`))` is F6: the driver's spec decides)
+            emit(case_line(&[Pat::Group('a', false, vec![lit('a', Esc::P), l.clone(), lit('b', Esc::P)], None)], &base));
+            emit(case_line(&[Pat::Group('h', false, vec![l.clone(), leaf("m"), l.clone()], spec(None, Some(true), Some("9"), None))], &base));
+            emit(case_line(&[Pat::Date(false, Some((vec![Lit { c, esc }, Lit { c: '%', esc: Esc::P }, Lit { c: 'Y', esc: Esc::P }, Lit { c, esc }], None)), None)], &base));
+            emit(case_line(&[Pat::Mdc(false, vec![Lit { c: 'k', esc: Esc::P }, Lit { c, esc }], None, None)], &full));
+            emit(case_line(&[Pat::Mdc(false, plain_lits("zz"), Some(vec![Lit { c: 'd', esc: Esc::P }, Lit { c, esc }]), None)], &full));
+        }
+    }
+    // 3. nesting depth 1..=6 of every group kind
+    for depth in 1..=6 {
+        for kinds in [['a', 'h'], ['h', 'd'], ['d', 'a'], ['r', 'h']] {
+            let mut p = vec![leaf("l"), lit('-', Esc::P), leaf("message")];
+            for d in 0..depth {
+                let k = kinds[d % 2];
+                let sp = if d % 2 == 0 { spec(None, Some(d % 4 == 0), Some("12"), Some("30")) } else { None };
+                p = vec![lit('(', Esc::D), Pat::Group(k, d % 3 == 0, p, sp), lit(')', Esc::B)];
+            }
+            emit(case_line(&p, &full));
+        }
+    }
+    // 4. MDC hit / miss / default, date with and without zone
+    for key in KEYS {
+        for dflt in [None, Some("dflt"), Some("\u{4e2d} x")] {
+            for long in [false, true] {
+                emit(case_line(&[Pat::Mdc(long, plain_lits(key), dflt.map(plain_lits), None)], &full));
+                emit(case_line(&[Pat::Mdc(long, plain_lits(key), dflt.map(plain_lits), spec(None, Some(true), Some("7"), None))], &base));
+            }
+        }
+    }
+    for f in DATE_FMTS {
+        for z in [None, Some(true), Some(false)] {
+            for long in [false, true] {
+                emit(case_line(&[lit('[', Esc::P), Pat::Date(long, Some((plain_lits(f), z)), None), lit(']', Esc::P)], &base));
+            }
+        }
+        emit(case_line(&[Pat::Date(false, Some((plain_lits(f), None)), spec(Some('.'), Some(true), Some("25"), None))], &base));
+    }
+    emit(case_line(&[Pat::Date(false, None, None)], &base));
+    emit(case_line(&[Pat::Date(true, None, spec(None, None, Some("40"), None))], &base));
+    // 5. the findings' witnesses: {thread_id} (F5)
+    emit(case_line(&[Pat::Leaf(THREAD_ID, true, None)], &base));
+    emit(case_line(&[lit('a', Esc::P), Pat::Leaf(THREAD_ID, true, None), lit('b', Esc::P)], &base));
+    // 6. random trees
+    let depth = if thorough { 5 } else { 4 };
+    for i in 0..n {
+        let mut ps = gen_pats(rng, depth, false);
+        if i % 50 == 0 {
+            ps.push(Pat::Leaf(THREAD_ID, true, None));
+        }
+        if i % 50 == 1 {
+            ps.push(Pat::Group('a', false, vec![lit(')', Esc::D), leaf("m")], None));
+        }
+        if i % 50 == 2 {
+            ps.push(Pat::Mdc(false, vec![Lit { c: 'k', esc: Esc::P }, Lit { c: '{', esc: Esc::D }], None, None));
+        }
+        let rec = c11::random_record(rng, "");
+        emit(case_line(&ps, &rec));
+    }
+}
+
+pub fn exec(fields: &[&str]) -> String {
+    if fields.len() != 10 {
+        return "bad-case".to_owned();
+    }
+    c11::exec(&fields[1..])
 }
